@@ -79,7 +79,7 @@ theorem sr_shift2 (h dw cnt : Nat) (hc : 1 ≤ cnt) :
 theorem upacketizer_step (c : PkCfg) (hc : UnalignedCfg c) (s : PkState) (env : Option UEnv)
     (a : List (Tok HBeat)) (d : List (Tok Nat)) (i : In HBeat)
     (h : uRel c s env a d) (hok : UOkStep env i) :
-    uRel c ((packetizer c).step s i) (uenvNext c s env i)
+    uRel c ((packetizer c).step s i) (uenvNext (packetizer c) s env i)
       (a ++ (packetizer c).accNow s i) (d ++ (packetizer c).delNow s i) := by
   obtain ⟨st, sr, cnt, fi, dd, dl⟩ := s
   obtain ⟨iv, it, ir⟩ := i
